@@ -82,7 +82,7 @@ type gluePiece struct {
 	comment bool
 }
 
-var glueTextAtoms = []string{"a", "b", "<", ">", " ", "  ", "\t", "\n", "\r\n", "\n  ", "\r", "\r  ", " \r", "é", "à", "々", "x y", "<b>", "</b>", "w", "http://x.y", "voilà//fin", "о", "м", "一", "a//b", "//b", "//example.com/x.png", "//"}
+var glueTextAtoms = []string{"a", "b", "<", ">", " ", "  ", "\t", "\n", "\r\n", "\n  ", "\r", "\r  ", " \r", "é", "à", "々", "x y", "<b>", "</b>", "w", "http://x.y", "voilà//fin", "о", "м", "一", "\u00a0", "\u3000", "\u2028", "\u0085", "\f", "\v", "\u00a0\n", "\u3000\n  ", "a//b", "//b", "//example.com/x.png", "//"}
 
 func directC15glue(g *G, rep *Report) {
 	n := g.N(2500, 60000)
@@ -133,7 +133,7 @@ func directC15glue(g *G, rep *Report) {
 				lit := []string{" x  \n y ", "{$notatag}", "a // b\n/* c */", "<  >", "{{}}", "é\tà", "\n", " \n ", "\r\n", "  ", "\t\n\t", "\r", " "}[r.Intn(13)]
 				pieces = append(pieces, gluePiece{src: "{literal}" + lit + "{/literal}", out: lit, kind: "tag"})
 			case c == 8:
-				pieces = append(pieces, gluePiece{src: []string{"/* c */", "/* multi\n line */", "/* */"}[r.Intn(3)], kind: "comment", comment: true})
+				pieces = append(pieces, gluePiece{src: []string{"/* c */", "/* multi\n line */", "/* */", "/**/", "/*/ x */", "/* ** */"}[r.Intn(6)], kind: "comment", comment: true})
 				hasComment = true
 			default:
 				// a line comment needs whitespace before it and runs through its newline
